@@ -118,6 +118,17 @@ func genSigs(c *core.Ctx, r *core.Rng) []sigClass {
 			}
 		}
 	}
+	// 3b. tail-call cliff: few (register-passed) params, 9..12 results of one class (beyond the
+	// result registers); run with tail-call wrappers that have up to 12 extra params of their own
+	for _, a := range numeric {
+		for _, b := range numeric {
+			for _, np := range []int{0, 1, 3} {
+				for nr := 9; nr <= 12; nr++ {
+					add(repeat(a, np), repeat(b, nr), "tail-cliff")
+				}
+			}
+		}
+	}
 	// 4. exhaustive small arities over all seven types (quick: PRNG sample)
 	var ex7 []sigClass
 	for _, p := range tuples(all7, 3) {
@@ -182,6 +193,8 @@ func run(c *core.Ctx) int {
 		if s.class != "exhaustive-numeric" {
 			ec.SignMask = vr.U32()
 		}
+		// tail-call forms of the wrappers (tail-call feature enabled): the cliff class and a share of the rest
+		ec.Tail = s.class == "tail-cliff" || len(ecs)%5 == 0
 		ecs = append(ecs, ec)
 		cases = append(cases, core.J(ec))
 	}
@@ -426,6 +439,10 @@ func run(c *core.Ctx) int {
 			c.Count("reentrant_calls_from_host", cr.Reentries)
 			c.Count("concurrent_calls", cr.ConcCalls)
 			c.Count("calls_through_mixed_import_guests", cr.MixedCalls)
+			c.Count("calls_through_tail_call_wrappers", cr.TailCalls)
+			if cr.TailShape != "" && cr.TailCalls > 0 {
+				c.Count("tail_cases "+cr.TailShape, 1)
+			}
 			c.Count("allowed_dirty_upper_half_at_host", cr.UpperHost)
 			c.Count("allowed_dirty_upper_half_at_go", cr.UpperGo)
 			for k, v := range cr.UpperGoBy {
@@ -473,7 +490,9 @@ func run(c *core.Ctx) int {
 		}
 	}
 	for _, k := range []string{"calls_style_guest-defined", "calls_form_call", "calls_form_callwithstack", "host_function_calls",
-		"wasm_judge_masks_checked", "reentrant_calls_from_host", "calls_through_mixed_import_guests", "bighost_cases_mixed_import_section"} {
+		"wasm_judge_masks_checked", "reentrant_calls_from_host", "calls_through_mixed_import_guests", "bighost_cases_mixed_import_section",
+		"calls_through_tail_call_wrappers", "tail_cases wrapper-stack-params+callee-reg-params+stack-results-int",
+		"tail_cases wrapper-stack-params+callee-reg-params+stack-results-float", "tail_cases wrapper-stack-params+callee-reg-params+reg-results"} {
 		if c.Counter(k) == 0 {
 			c.Inconclusive("never-reached:" + k)
 		}
